@@ -98,6 +98,8 @@ fn run(args: &[String]) -> i32 {
         "trace" => {
             // mdkv trace <scenario-name> <member> <pool indices / m / c / r ...>  (debugging aid)
             let mut all = families::c01_thorough();
+            all.extend(families::c11_extra());
+            all.extend(families::c08_quick());
             all.extend(families::c02_thorough());
             all.extend(families::c08_quick());
             all.extend(families::c03_quick());
@@ -297,6 +299,30 @@ fn c14(tier: &str) -> i32 {
     if tier != "quick" {
         jobs.extend(jobs_from(families::c01_quick()).into_iter().map(|j| j.backend(lab::Bk::Sqlite)));
     }
+    // what is logged while the snapshot queue is rebuilt after a restart (SQLite)
+    for (sc, _) in families::c01_quick().into_iter().take(if tier == "quick" { 2 } else { 6 }) {
+        let mut j = E1Job::new(sc).backend(lab::Bk::Sqlite);
+        j.regimes = vec![explore::Regime::Causal];
+        j.with_restart = true;
+        j.with_local_ops = false;
+        j.members = Some(vec!["Z".into()]);
+        jobs.push(j);
+    }
+    // invitations, including replayed and attacker-made ones (errors of refused invitations are scanned like the rest)
+    {
+        use scenario::{ActKind, act};
+        let sc = families::base("invite", &["A", "B", "C", "Z"], &["A", "B"], &["D", "O"], vec![act("Z", ActKind::Msg("before-join".into()), 5), act("A", ActKind::Add("D".into()), 10).then(vec![act("Z", ActKind::Msg("after-join".into()), 5)])]);
+        let mut j = E1Job::new(sc);
+        j.regimes = vec![explore::Regime::Causal];
+        j.members = Some(vec!["Z".into(), "D".into()]);
+        j.with_welcomes = true;
+        j.welcome_consent = 1;
+        j.with_local_ops = false;
+        j.prejoin = true;
+        j.world_hook = Some(c16_hook);
+        j.max_states = if tier == "quick" { 800 } else { 20000 };
+        jobs.push(j);
+    }
     run_e1(jobs, &|cx, rep, _| props_e1::check_c14(cx, rep), &mut rep);
     // the hostile inputs of C06, monitored
     c06::run(&mut rep, lab::Bk::Memory, tier != "quick");
@@ -373,6 +399,7 @@ fn c11check(tier: &str) -> i32 {
     v.extend(families::c02_quick().into_iter().take(if tier == "quick" { 2 } else { 100 }));
     // an earlier commit (an older snapshot exists), then a race
     v.push((families::base("commit-then-race", &["A", "B", "Z"], &["A", "B"], &[], vec![scenario::act("A", scenario::ActKind::Rename("pre".into()), 5).then(vec![scenario::act("A", scenario::ActKind::Rename("a".into()), 10), scenario::act("B", scenario::ActKind::Rename("b".into()), 20)])]), true));
+    v.extend(families::c11_extra());
     if tier != "quick" {
         v.extend(families::chains(2, 2));
         v.extend(families::leaves());
@@ -395,6 +422,7 @@ fn c11check(tier: &str) -> i32 {
                         for m in members {
                             if w.initial.contains_key(&m) {
                                 c11::explore_pairs(&w, &m, explore::Regime::Causal, max_pairs, &mut r);
+                                c11::linear_restarts(&w, &m, &mut r);
                             }
                         }
                     }
@@ -555,7 +583,52 @@ fn c16check(tier: &str) -> i32 {
         }
         jobs.push(j);
     }
+    // a member that has rotated its key, is removed and invited again, explored from the state in which it has
+    // published its new key package (both backends: the rotation state is a column of its own in SQLite)
+    {
+        let sc = families::base("reinvite-after-rotation", &m, &ad, &["O"], vec![act("C", ActKind::SelfUpdate, 5).then(vec![act("A", ActKind::Remove("C".into()), 10).then(vec![act("A", ActKind::Add("C".into()), 20).then(vec![msg("Z", "back-in")])])])]);
+        for bk in [lab::Bk::Memory, lab::Bk::Sqlite] {
+            let mut j = E1Job::new(sc.clone()).backend(bk);
+            j.regimes = vec![explore::Regime::Causal];
+            j.members = Some(vec!["C".into()]);
+            j.with_welcomes = true;
+            j.welcome_consent = 1;
+            j.with_local_ops = false;
+            j.prejoin = true;
+            j.rejoin = true;
+            j.max_states = if tier == "quick" { 600 } else { 20000 };
+            jobs.push(j);
+        }
+    }
     run_e1(jobs, &|cx, rep, _| props_e1::check_c16(cx, rep), &mut rep);
+    // an accept that fails (the key package the invitation was addressed to is gone by then) never yields an active group
+    for bk in if tier == "quick" { vec![lab::Bk::Memory] } else { vec![lab::Bk::Memory, lab::Bk::Sqlite] } {
+        let sc = families::base("invite-accept-fails", &m, &ad, &["D"], vec![act("A", ActKind::Add("D".into()), 10)]);
+        let Ok(w) = scenario::build_world(&sc, bk) else {
+            rep.machinery_errors.push("c16 invite-accept-fails world".into());
+            continue;
+        };
+        let (Some(d), Some(kp_ev), Some((wid, rumor, _))) = (w.prejoin.get("D"), w.key_packages.get("D"), w.welcomes.iter().find(|x| x.2 == "D")) else { continue };
+        let d = d.fork();
+        let processed = with_mdk!(d, mm => mm.process_welcome(wid, rumor));
+        let Ok(wl) = processed else {
+            rep.machinery_errors.push("c16 invite-accept-fails: process_welcome".into());
+            continue;
+        };
+        let deleted = with_mdk!(d, mm => mm.parse_key_package(kp_ev).and_then(|kp| mm.delete_key_package_from_storage(&kp))).is_ok();
+        let res = with_mdk!(d, mm => mm.accept_welcome(&wl));
+        let state = d.group_obs(&w.gid).map(|o| o.record_state).unwrap_or_else(|| "no-group".into());
+        let wstate = with_mdk!(d, mm => mm.get_welcome(&wl.id)).ok().flatten().map(|x| x.state.as_str().to_string()).unwrap_or_default();
+        rep.case(&format!("accept-fails|{bk:?}|deleted={deleted}|accept={}|group={state}|welcome={wstate}", if res.is_ok() { "ok" } else { "err" }));
+        rep.evaluations += 1;
+        if res.is_err() && (state == "active" || wstate == "accepted") {
+            rep.finding(
+                format!("C16|failed-accept-left-its-mark|group={state}|welcome={wstate}"),
+                format!("accept_welcome fails ({:?}) after the key package was deleted, yet the group is {state} and the welcome {wstate}", res.err().map(|e| lab::err_variant(&e))),
+                serde_json::json!({"backend": format!("{bk:?}")}),
+            );
+        }
+    }
     rep.finish()
 }
 
